@@ -192,6 +192,10 @@ func (brr *BalanceRR) Update(conf cluster_table_conf.SubClusterBackend) {
 		backendsNew = append(backendsNew, backendRR)
 	}
 
+	// restart scheduling from the new weights: a current weight accumulated
+	// under the old weights would distort the selection sequence
+	backendsNew.ResetWeight()
+
 	// point brr.backends to backendsNew
 	brr.backends = backendsNew
 	brr.sorted = false
